@@ -16,6 +16,7 @@ import (
 	"os"
 	"reflect"
 	"sort"
+	"strconv"
 	"strings"
 	"testing"
 
@@ -121,6 +122,7 @@ type spkCase struct {
 	Cluster  vw.ClusterSpec `json:"cluster"`
 	Disabled bool           `json:"memberlist_disabled,omitempty"`
 	Ignore   bool           `json:"ignore_exclude_lb,omitempty"`
+	LBClass  bool           `json:"lb_class,omitempty"` // the speaker runs with --lb-class and every service carries that class
 	Alive    []bool         `json:"alive"`
 	Ops      []spkOp        `json:"ops"`
 }
@@ -146,8 +148,12 @@ func spkPools(rt *rapid.T) []vw.PoolSpec {
 	return out
 }
 
+// community aliases every configuration carries: a plain alias, and one whose *name* looks like a community literal
+var spkCommunityCR = vw.CommunitySpec{Name: "comms", Aliases: [][2]string{{"alias1", "65000:7"}, {"64512:666", "65535:666"}}}
+
 func spkAdvs(rt *rapid.T, c *vw.ClusterSpec) {
 	c.L2, c.BGP, c.Peers = nil, nil, nil
+	c.Comms = []vw.CommunitySpec{spkCommunityCR}
 	for i, k := 0, rapid.IntRange(0, 2).Draw(rt, "nl2"); i < k; i++ {
 		a := vw.L2AdvSpec{Name: fmt.Sprintf("l2adv%d", i)}
 		if rapid.IntRange(0, 2).Draw(rt, "l2nodeK") == 0 {
@@ -158,6 +164,9 @@ func spkAdvs(rt *rapid.T, c *vw.ClusterSpec) {
 			a.PoolSel = vw.GenSels(rt, "l2poolsel", 1)
 		case 1:
 			a.Pools = []string{rapid.SampledFrom([]string{"poolA", "poolB", "poolC"}).Draw(rt, "l2pool")}
+		case 2: // both: the named pool and whatever the selector matches
+			a.Pools = []string{rapid.SampledFrom([]string{"poolA", "poolB", "poolC"}).Draw(rt, "l2pool")}
+			a.PoolSel = vw.GenSels(rt, "l2poolsel", 1)
 		}
 		if rapid.IntRange(0, 2).Draw(rt, "l2if") == 0 {
 			a.Interfaces = rapid.SampledFrom([][]string{{"ifA"}, {"ifA", "ifB"}, {"ifC"}, {"ifB", "ifC"}}).Draw(rt, "ifs")
@@ -168,6 +177,12 @@ func spkAdvs(rt *rapid.T, c *vw.ClusterSpec) {
 		p := vw.PeerSpec{Name: fmt.Sprintf("peer%d", i), MyASN: 64512, ASN: 64512 + uint32(i%2), Address: fmt.Sprintf("192.168.1.%d", i+1)}
 		if rapid.IntRange(0, 2).Draw(rt, "peerselK") == 0 {
 			p.NodeSel = vw.GenSels(rt, "peernodesel", 2)
+		}
+		if rapid.IntRange(0, 2).Draw(rt, "peerRouterID") == 0 {
+			p.RouterID = fmt.Sprintf("10.9.9.%d", i+1)
+		}
+		if rapid.IntRange(0, 3).Draw(rt, "peerPassword") == 0 {
+			p.Password = fmt.Sprintf("pw%d", i)
 		}
 		c.Peers = append(c.Peers, p)
 	}
@@ -182,13 +197,16 @@ func spkAdvs(rt *rapid.T, c *vw.ClusterSpec) {
 			a.PoolSel = vw.GenSels(rt, "bgppoolsel", 1)
 		case 1:
 			a.Pools = []string{rapid.SampledFrom([]string{"poolA", "poolB", "poolC"}).Draw(rt, "bgppool")}
+		case 2: // both: the named pool and whatever the selector matches
+			a.Pools = []string{rapid.SampledFrom([]string{"poolA", "poolB", "poolC"}).Draw(rt, "bgppool")}
+			a.PoolSel = vw.GenSels(rt, "bgppoolsel", 1)
 		}
 		if rapid.IntRange(0, 1).Draw(rt, "aggK") == 0 {
 			a.Agg4 = rapid.SampledFrom([]int{32, 30, 28, 28, 25, 24}).Draw(rt, "agg4")
 			a.Agg6 = rapid.SampledFrom([]int{128, 127, 124, 120}).Draw(rt, "agg6")
 		}
 		if rapid.IntRange(0, 2).Draw(rt, "commK") == 0 {
-			a.Communities = rapid.SampledFrom([][]string{{"65000:1"}, {"65000:2", "65000:1"}, {"large:1:2:3"}}).Draw(rt, "comms")
+			a.Communities = rapid.SampledFrom([][]string{{"65000:1"}, {"65000:2", "65000:1"}, {"large:1:2:3"}, {"alias1"}, {"64512:666", "65000:1"}, {"0100:0200"}, {"large:0064512:010:07", "alias1"}}).Draw(rt, "comms")
 		}
 		if len(c.Peers) > 0 && rapid.IntRange(0, 2).Draw(rt, "peersK") == 0 {
 			for _, p := range c.Peers {
@@ -259,7 +277,7 @@ func genSpkIPs(rt *rapid.T, cl vw.ClusterSpec) []string {
 }
 
 func genSpkCase(rt *rapid.T) spkCase {
-	c := spkCase{Cluster: genSpkCluster(rt), Disabled: rapid.IntRange(0, 2).Draw(rt, "mlDisabled") == 0, Ignore: rapid.IntRange(0, 3).Draw(rt, "ignore") == 0}
+	c := spkCase{Cluster: genSpkCluster(rt), Disabled: rapid.IntRange(0, 2).Draw(rt, "mlDisabled") == 0, Ignore: rapid.IntRange(0, 3).Draw(rt, "ignore") == 0, LBClass: rapid.IntRange(0, 3).Draw(rt, "lbClass") == 0}
 	cur := c.Cluster
 	for range cur.Nodes {
 		c.Alive = append(c.Alive, rapid.IntRange(0, 4).Draw(rt, "alive") != 0)
@@ -317,7 +335,7 @@ func genSpkCase(rt *rapid.T) spkCase {
 			cur.Nodes = append(append([]vw.NodeSpec(nil), cur.Nodes...), n)
 		case k <= 17:
 			op.Kind = "config"
-			n := vw.ClusterSpec{Pools: cur.Pools, Nodes: cur.Nodes}
+			n := vw.ClusterSpec{Pools: cur.Pools, Nodes: cur.Nodes, Comms: cur.Comms}
 			switch rapid.IntRange(0, 3).Draw(rt, "cfgK") {
 			case 0:
 				n.Pools = spkPools(rt)
@@ -449,7 +467,7 @@ func newSpkSim(w *vw.World, sl *vfSpeakerList, ignore bool) *spkSim {
 		}}
 	s.reload = make(chan event.GenericEvent, 4096)
 	fr := func() { s.reload <- controllers.NewReloadEvent() }
-	s.svcRec = &controllers.ServiceReconciler{Client: w, Logger: log.NewNopLogger(), Handler: s.lis.ServiceHandler, Endpoints: true, Reload: s.reload}
+	s.svcRec = &controllers.ServiceReconciler{Client: w, Logger: log.NewNopLogger(), Handler: s.lis.ServiceHandler, Endpoints: true, Reload: s.reload, LoadBalancerClass: w.LBClass}
 	s.nodeRec = &controllers.NodeReconciler{Client: w, Logger: log.NewNopLogger(), NodeName: spkMe, Handler: s.lis.NodeHandler, ForceReload: fr}
 	s.cfgRec = &controllers.ConfigReconciler{Client: w, Logger: log.NewNopLogger(), Namespace: vw.MetalNS, Handler: s.lis.ConfigHandler, ValidateConfig: config.DontValidate, ForceReload: fr}
 	return s
@@ -552,6 +570,7 @@ type spkRun struct {
 	alive        []bool
 	j05          bool
 	j09          bool
+	j13          bool   // judge the interface scope of every layer-2 announcement against the closed form
 	freshRunning bool   // the reference speakers are being fed: no injected faults
 	sliceFail    []bool // outcomes of the next EndpointSlice lists of the speaker under test
 }
@@ -574,6 +593,7 @@ func (r *spkRun) writeSvc(s *spkSvc) {
 	} else {
 		s.Spec.Apply(obj, 0)
 	}
+	r.w.Stamp(obj)
 	obj.Status.LoadBalancer.Ingress = nil
 	for _, ip := range s.IPs {
 		obj.Status.LoadBalancer.Ingress = append(obj.Status.LoadBalancer.Ingress, v1.LoadBalancerIngress{IP: ip})
@@ -709,7 +729,7 @@ func (r *spkRun) expected() (map[string][]string, map[string][]string, bool) {
 				pfx, _ := a.Prefix(bits)
 				var cs []string
 				for _, c := range adv.Communities {
-					cs = append(cs, strings.TrimPrefix(c, "large:"))
+					cs = append(cs, spkNormComm(cfg, c))
 				}
 				sort.Strings(cs)
 				route := fmt.Sprintf("%s lp=%d comm=%s", pfx.String(), adv.LocalPref, strings.Join(cs, ","))
@@ -751,6 +771,26 @@ func (r *spkRun) expected() (map[string][]string, map[string][]string, bool) {
 		}
 	}
 	return outS, outP, interesting && len(sessions) >= 2
+}
+
+// spkNormComm: what a community string of an advertisement stands for - an alias of a Community CR is looked up
+// first (also when its name looks like a literal), numbers are decimal whatever their leading zeros.
+func spkNormComm(cfg vw.ClusterSpec, c string) string {
+	for _, cr := range cfg.Comms {
+		for _, a := range cr.Aliases {
+			if a[0] == c {
+				c = a[1]
+			}
+		}
+	}
+	c = strings.TrimPrefix(c, "large:")
+	parts := strings.Split(c, ":")
+	for i, p := range parts {
+		if n, err := strconv.ParseUint(p, 10, 32); err == nil {
+			parts[i] = strconv.FormatUint(n, 10)
+		}
+	}
+	return strings.Join(parts, ":")
 }
 
 func contains(l []string, x string) bool {
@@ -797,8 +837,70 @@ func (r *spkRun) atQuiescence(label string) *vw.Violation {
 		if !reflect.DeepEqual(normalize(got.Sessions), normalize(wantS)) {
 			return vw.Violationf("bgp-routes-differ", "%s: routes offered per peer %v, expected %v", label, got.Sessions, wantS)
 		}
+		// every live session was created with the parameters of its own peer
+		for _, p := range r.sim.cfgSeen.Peers {
+			par, live := r.sim.rec.params[p.Name]
+			if _, ok := r.sim.rec.live[p.Name]; !ok || !live {
+				continue
+			}
+			rid := ""
+			if par.RouterID != nil {
+				rid = par.RouterID.String()
+			}
+			if rid != p.RouterID || par.PeerASN != p.ASN || par.MyASN != p.MyASN || par.PeerAddress != p.Address || par.Password != p.Password {
+				return vw.Violationf("session-parameters", "%s: the session of peer %s was created with router id %q, ASNs %d/%d, address %s, password %q; the peer is configured with router id %q, ASNs %d/%d, address %s, password %q",
+					label, p.Name, rid, par.MyASN, par.PeerASN, par.PeerAddress, par.Password, p.RouterID, p.MyASN, p.ASN, p.Address, p.Password)
+			}
+		}
 		if !reflect.DeepEqual(got.PeersFor, wantP) {
 			return vw.Violationf("bgp-peers-for-service", "%s: PeersForService reports %v, expected %v (routes per peer %v)", label, got.PeersFor, wantP, got.Sessions).WithSig(peersSig(got.PeersFor, wantP, got.Sessions))
+		}
+	}
+	if r.j13 {
+		// an announced address is answered on exactly the interfaces of the L2 advertisements of its pool that
+		// select this node: all interfaces if one of them has no interface list, else the union of the lists
+		cfg := r.sim.cfgSeen
+		var labels map[string]string
+		for _, n := range cfg.Nodes {
+			if n.Name == spkMe {
+				labels = n.AllLabels()
+			}
+		}
+		for svc, advs := range got.L2 {
+			for _, adv := range advs {
+				p := cfg.PoolOf([]netip.Addr{vw.MustAddr(adv.IP)})
+				if p == nil {
+					continue
+				}
+				all, sel := false, false
+				ifs := map[string]bool{}
+				for _, a := range cfg.L2 {
+					if !targets(a.Pools, a.PoolSel, *p) || !vw.AnyMatches(a.NodeSel, labels) {
+						continue
+					}
+					sel = true
+					if len(a.Interfaces) == 0 {
+						all = true
+					}
+					for _, f := range a.Interfaces {
+						ifs[f] = true
+					}
+				}
+				if !sel {
+					continue // eligibility is judged elsewhere
+				}
+				var want []string
+				if !all {
+					for f := range ifs {
+						want = append(want, f)
+					}
+					sort.Strings(want)
+				}
+				r.tr.Class("l2-interface-scope-compared")
+				if adv.All != all || (!all && fmt.Sprint(adv.Ifs) != fmt.Sprint(want)) {
+					return vw.Violationf("l2-interface-scope", "%s: %s announces %s on all=%v %v, the advertisements that select this node give all=%v %v", label, svc, adv.IP, adv.All, adv.Ifs, all, want)
+				}
+			}
 		}
 	}
 	if r.j09 {
@@ -889,7 +991,13 @@ func l2Sig(hist, fresh map[string][]layer2.VerifAdv) string {
 func runSpk(c spkCase, tr *vw.Trace, j05, j09 bool, extra ...string) *vw.Violation {
 	j18 := len(extra) > 0 && extra[0] == "c18"
 	j08 := len(extra) > 0 && extra[0] == "c08"
+	r13 := len(extra) > 0 && extra[0] == "c13"
 	r := &spkRun{c: c, tr: tr, w: vw.NewWorld(), sl: &vfSpeakerList{info: speakerlist.SpeakerListInfo{Disabled: c.Disabled, Nodes: map[string]bool{}}}, ever: map[string]bool{}, j05: j05, j09: j09}
+	r.j13 = r13
+	if c.LBClass {
+		r.w.LBClass = "verif.example/metallb"
+		tr.Class("running-with-lb-class")
+	}
 	r.cl = c.Cluster
 	r.w.SetCluster(r.cl)
 	r.setMembers(c.Alive)
@@ -1128,8 +1236,8 @@ func TestVerifC04Spk(t *testing.T) {
 }
 
 func TestVerifC13Spk(t *testing.T) {
-	vw.Run(t, vw.Options{Property: "C13", Engine: "speaker", Rule: spkRule + "; at every quiescence the addresses (and interface scopes) the real announcer of this speaker holds - which is what its ARP/NDP responders answer for - must equal those of freshly started speakers: the node answers for an address only while a service it currently announces holds it; non-trivial = a withdraw-causing event happened", Assumptions: spkAssumptions},
-		genSpkCase, func(c spkCase, tr *vw.Trace) *vw.Violation { return runSpk(c, tr, false, true) })
+	vw.Run(t, vw.Options{Property: "C13", Engine: "speaker", Rule: spkRule + "; at every quiescence the addresses (and interface scopes) the real announcer of this speaker holds - which is what its ARP/NDP responders answer for - must equal those of freshly started speakers (the node answers for an address only while a service it currently announces holds it), and the interface scope of every announcement must be that of the L2 advertisements selecting this node (all interfaces, or the union of their interface lists); non-trivial = a withdraw-causing event happened", Assumptions: spkAssumptions},
+		genSpkCase, func(c spkCase, tr *vw.Trace) *vw.Violation { return runSpk(c, tr, false, true, "c13") })
 }
 
 func TestVerifC18Spk(t *testing.T) {
@@ -1177,4 +1285,25 @@ func c08Diff(want, have *config.Config) string {
 func TestVerifC08Spk(t *testing.T) {
 	vw.Run(t, vw.Options{Property: "C08", Engine: "speaker", Rule: spkRule + "; events reach the reconcilers through their real update filters; at every quiescence with an accepted configuration and a valid store the configuration the speaker runs with must equal config.For of the store (pools, advertisements attached to exactly the nodes their selectors match now, peers); non-trivial = such a comparison happened", Assumptions: spkAssumptions},
 		genSpkCase, func(c spkCase, tr *vw.Trace) *vw.Violation { return runSpk(c, tr, false, false, "c08") })
+}
+
+// C14 / C15 end to end: the backends (judged by their own engines) translate what is requested on each session;
+// this engine judges the first half - that the speaker requests on each session exactly what the configuration
+// and the announced services call for, whatever history it lived through.
+func TestVerifC14Spk(t *testing.T) {
+	vw.Run(t, vw.Options{Property: "C14", Engine: "speaker-requests", Rule: spkRule + "; at every quiescence the advertisements last requested on every live session (prefix, local preference, communities, per-peer filtering) are compared with the closed form and with freshly started speakers; a session the speaker re-created must have been given its advertisements again; non-trivial as C05", Assumptions: spkAssumptions},
+		genSpkCase, func(c spkCase, tr *vw.Trace) *vw.Violation { return runSpk(c, tr, true, true) })
+}
+
+func TestVerifC15Spk(t *testing.T) {
+	vw.Run(t, vw.Options{Property: "C15", Engine: "speaker-requests", Rule: spkRule + "; as C14 speaker-requests: what the speaker requests on each session is what the frr-k8s backend is asked to express; non-trivial as C05", Assumptions: spkAssumptions},
+		genSpkCase, func(c spkCase, tr *vw.Trace) *vw.Violation { return runSpk(c, tr, true, true) })
+}
+
+// C16 / C17 end to end: the native backend encodes what it is given (judged by its own engines); this engine
+// judges that the speaker gives each session the intended content (communities of its own advertisement, router
+// id of its own peer).
+func TestVerifC16Spk(t *testing.T) {
+	vw.Run(t, vw.Options{Property: "C16", Engine: "speaker-requests", Rule: spkRule + "; at every quiescence the advertisements requested on every live session (prefix, local preference, communities incl. aliases and zero-padded literals) and the parameters every session was created with (router id, ASNs, address, password) are compared with the closed form; non-trivial as C05", Assumptions: spkAssumptions},
+		genSpkCase, func(c spkCase, tr *vw.Trace) *vw.Violation { return runSpk(c, tr, true, true) })
 }
